@@ -194,6 +194,41 @@ def run(ctx):
                                    "cfg": cfg, "paths": [r["path"] for r in reqs], "sweep": True}})
             import shutil
             shutil.rmtree(d, ignore_errors=True)
+        # ---- multi-scale datasets: ONE accessor reads chunks of several scales in an
+        # interleaved order (per-scale reader state must not leak between scales)
+        for _ in range(ctx.pick(12, 300)):
+            nsc = ctx.rng.choice([2, 2, 3])
+            cfgs = c04.gen_random_cfgs(ctx, nsc)
+            for cfg in cfgs:
+                cfg["mb"] = min(cfg["mb"], 3)
+            stored_lists = []
+            for cfg in cfgs:
+                allp = sd.all_pos(cfg["grid"])
+                ctx.rng.shuffle(allp)
+                keep = sorted(allp[:max(1, int(len(allp) * ctx.rng.choice([1.0, 1.0, 0.6])))],
+                              key=lambda p: sd.morton_ref(cfg["grid"], p))
+                stored_lists.append(keep)
+            d, all_sizes = hd.build_multiscale(work, cfgs, stored_lists, salt=ctx.rng.randrange(1 << 20))
+            steps = []
+            for k, cfg in enumerate(cfgs):
+                allp = sd.all_pos(cfg["grid"])
+                ctx.rng.shuffle(allp)
+                for pos in allp[:ctx.pick(3, 6)]:
+                    steps.append(("chunk", sd.coords_of(pos, 4, all_sizes[k]), {}, "s%d" % k))
+            ctx.rng.shuffle(steps)
+            url = spell(ctx.rng, server, os_rel(work, d))
+            outs = hd.http_session(server, url, steps)
+            for k, ((target, coords, _s, key), (res, reqs, acc_class, info_faulted)) in enumerate(zip(steps, outs)):
+                loc = hd.local_read(d, target, coords, key=key)
+                cases.append({"kind": "shard", "target": "chunk", "nminis": 0, "declared": True,
+                              "accClass": acc_class, "infoFaulted": info_faulted or k > 0,
+                              "reqs": [{"m": r["m"], "rng": r["rng"], "applied": r["applied"]} for r in reqs],
+                              "local": {"st": loc["st"], "data": loc["data"]}, "http": res,
+                              "meta": {"url": url.replace(str(server.port), "PORT"), "pos": list(coords),
+                                       "sched": [], "cfg": cfgs, "scale": key, "session_step": k,
+                                       "multiscale": True, "paths": [r["path"] for r in reqs], "sweep": True}})
+            import shutil
+            shutil.rmtree(d, ignore_errors=True)
         # plain datasets: flat/deep x gzip, every chunk + a missing chunk + info;
         # one dataset served at the server ROOT (URL with empty path)
         for layout in ("flat", "deep"):
@@ -240,7 +275,7 @@ def run(ctx):
         if st != "ok":
             sig = {"kind": c["kind"], "target": c["target"], "faulted": faulted, "http_cls": c["http"]["cls"],
                    "acc_class": c["accClass"], "empty_path_url": m["url"].rstrip("/").endswith("PORT"),
-                   "sweep": bool(m.get("sweep"))}
+                   "sweep": bool(m.get("sweep")), "multiscale": bool(m.get("multiscale"))}
             ctx.violation(clause, sig, {"meta": m, "http": c["http"], "local": c["local"], "reqs": c["reqs"]})
     ctx.sample({"kind": cases[0]["kind"], "sched": cases[0]["meta"]["sched"], "paths": cases[0]["meta"]["paths"],
                 "http": cases[0]["http"]["st"] + ":" + cases[0]["http"]["cls"],
